@@ -78,8 +78,19 @@ ChangedModels ==
     \cup { mn \in DOMAIN Sig0 : mn \notin DOMAIN cur }
 (* as repaired (d90e9c3): the new name of a renamed changed model counts as changed *)
 RenamedChanged(ms) == { ms[i].nm : i \in { j \in 1..Len(ms) : ms[j].k = "RenM" /\ ms[j].om \in ChangedModels } }
-Pending(ms) == SelectSeq(ms, LAMBDA mu : ~IsModelMutation(mu) \/ mu.k = "RenM"
-                                         \/ mu.m \in ChangedModels \cup RenamedChanged(ms))
+(* as repaired (51d8f08): a RenameModel is kept only if it renames a model the stored
+   signature knows, possibly under the name an earlier kept rename gave it *)
+RECURSIVE PendingFrom(_, _, _)
+PendingFrom(ms, known, all) ==
+    IF ms = <<>> THEN <<>>
+    ELSE LET mu == Head(ms) IN
+         IF mu.k = "RenM"
+         THEN IF mu.om \in known
+              THEN <<mu>> \o PendingFrom(Tail(ms), (known \ {mu.om}) \cup {mu.nm}, all)
+              ELSE PendingFrom(Tail(ms), known, all)
+         ELSE (IF ~IsModelMutation(mu) \/ mu.m \in ChangedModels \cup RenamedChanged(all)
+               THEN <<mu>> ELSE <<>>) \o PendingFrom(Tail(ms), known, all)
+Pending(ms) == PendingFrom(ms, DOMAIN Sig0, ms)
 
 (* what the real pipeline does with the perturbed evolution *)
 PRun == TwoPass(Pending(pert), Sig0)
